@@ -123,7 +123,10 @@ def correspondence(ctx):
              # several reports (an override names its report as 4th item, a clear as 2nd; 0 = MAIN_REPORT)
              [['override', 1, [[0, 'A!']], 0], ['override', 1, [[0, 'B!']], 1], ['clear', 1], ['clear', 0]],
              [['override', 1, [[0, 'A!']], 1], ['override', 2, [[1, 'B!']], 2], ['clear', 2], ['contextualize', 1]],
-             [['override', 2, [[0, 'A!']], 1], ['clear', 0], ['override', 2, [[0, 'B!']], 0], ['clear', 0], ['clear', 1]]]
+             [['override', 2, [[0, 'A!']], 1], ['clear', 0], ['override', 2, [[0, 'B!']], 0], ['clear', 0], ['clear', 1]],
+             # the same Submission object attached twice
+             [['contextualize_same', 0], ['override', 1, [[0, 'A!']], 0], ['contextualize_same', 0]],
+             [['contextualize_same', 1], ['override', 3, [[2, 'high']], 1], ['contextualize_same', 1], ['override', 3, [[0, 'z']], 1], ['contextualize_same', 1]]]
     for hn in range(n_hist):
         h = []
         nrep = 1 if hn % 2 == 0 else rng.randrange(2, 4)
@@ -135,7 +138,7 @@ def correspondence(ctx):
             elif k < 9:
                 h.append(['clear', rng.randrange(nrep)])
             else:
-                h.append(['contextualize', rng.randrange(nrep)])
+                h.append([rng.choice(['contextualize', 'contextualize_same']), rng.randrange(nrep)])
         if h[-1][0] == 'override' and rng.random() < 0.8:
             h.append(['clear', h[-1][3]])
         hists.append(h)
@@ -179,6 +182,16 @@ def correspondence(ctx):
             ctx.violation('formatter-gets-a-string-instead-of-the-field',
                           {'observed': r, 'why': 'template %s: the formatter method received %s %s, the field is %s %s'
                                                  % (r['template'], r['arg_type'], r['arg_repr'], r['want_type'], r['want_repr'])})
+
+    for r in res2.get('formatting_instances', []):
+        ctx.case(('formatter-instance', r['step']), nontrivial=True)
+        x = {'main-report': 'm', 'formatter-replaced': 'late'}.get(r['step'], 'v' + r['step'].split(':')[-1])
+        want = 'N <%s:name:%s> V <%s:value:%s> W <%s:name:%s>' % (r['tag'], x, r['tag'], x, r['tag'], x)
+        got = ' '.join(str(r['message']).split())
+        if got != want:
+            ctx.violation('rendered-through-another-formatter',
+                          {'observed': r, 'why': 'step %s: the feedback belongs to the report whose formatter is tagged %r; its message is %r, '
+                                                 'rendered from its fields through that formatter it would be %r' % (r['step'], r['tag'], r['message'], want)})
 
     # (a) creation: exhaustive over the spec space
     items = []
